@@ -253,6 +253,10 @@ func init() {
 				if len(sp.Bars) > 1 {
 					b = bound - 1
 				}
+				if tier == "thorough" {
+					items = append(items, specItemsMixed("C14", sp, b, b-1, allStrats, nil, c14Oracle)...)
+					continue
+				}
 				items = append(items, specItems("C14", sp, b, allStrats, nil, c14Oracle)...)
 			}
 			// cancellation while the output goes away: the render after the cancellation fails
@@ -285,7 +289,7 @@ func init() {
 				items = allItems("C16", leakOracle, nil, "incr", "incr-cancel", "incr-shutdown", "incr-write", "two", "empty")
 			}
 			for _, sp := range c16Programs(tier) {
-				items = append(items, specItems("C16", sp, bound, allStrats, nil, leakOracle)...)
+				items = append(items, specItemsMixed("C16", sp, bound, 1, allStrats, nil, leakOracle)...)
 			}
 			for _, rf := range []string{"auto", "manual"} {
 				// the terminal goes away: the size query fails in the next cycle
